@@ -290,6 +290,11 @@ def static_checks(x: Extraction, findings):
         for o in ops:
             if o['kind'] in BLOCKING:
                 fail('C09', 'drop-never-blocks', 'dropping a handle performs the blocking operation `%s`' % o['kind'])
+            if o['kind'] in ('wrapped_emit', 'wrapped_flush', 'wrapped_stats', 'handler'):
+                # the wrapped sink is arbitrary user code (it may block on its own lock or panic): calling it on the
+                # dropping thread makes the drop as slow / as panicky as the sink
+                fail('C09', 'drop-calls-wrapped-sink', 'dropping a handle calls into the wrapped sink on the dropping thread: %s' % ' ; '.join(fmt_op(o2) for o2 in ops))
+                findings[-1]['scenario'] = {'kind': 'queue-drop-calls-sink'}
         if leaf[0] == 'panic':
             fail('C09', 'drop-never-panics', 'dropping a handle can panic: %s' % ' ; '.join(fmt_op(o) for o in ops))
     worker = x.programs['worker']
@@ -398,6 +403,7 @@ class Product:
 
     # ---- encoding (bit-vectors: the query is bit-blasted to SAT) ------------------------------------------
     W = 8
+    PW = 12               # program counters
     NONE_MARK = 0xFF      # the stop marker in the channel
     EMPTY = 0xFE          # unused channel slot / "no metric"
 
@@ -447,7 +453,7 @@ class Product:
         for sl in self.slots:
             for rn in self.reg_syms:
                 st['reg:%s:%s' % (sl, rn)] = I(0)
-            st['pc:' + sl] = I(0)
+            st['pc:' + sl] = z3.BitVecVal(0, self.PW)
             st['cur:' + sl] = I(self.EMPTY)
             st['mid:' + sl] = I(self.EMPTY)
             st['active:' + sl] = z3.BoolVal(sl.startswith('P') or sl == 'W0' or sl.startswith('S'))
@@ -461,8 +467,8 @@ class Product:
         E = []
         for sl in self.slots:
             nodes = self.nodes_of(sl)
-            if len(nodes) > 250:
-                raise Unsupported('thread program too large for the 8-bit program counter')
+            if len(nodes) >= (1 << self.PW) - 2:
+                raise Unsupported('thread program too large for the %d-bit program counter' % self.PW)
             # only nodes reachable through edges that can ever fire
             reach, todo = {0}, [0]
             while todo:
@@ -520,7 +526,7 @@ class Product:
                     for j, upd in enumerate(updates):
                         if k in upd:
                             e = z3.If(fire[t] == j, upd[k], e)
-                    var = z3.Bool('%s_%d' % (k, t + 1)) if z3.is_bool(v) else z3.BitVec('%s_%d' % (k, t + 1), self.W)
+                    var = z3.Bool('%s_%d' % (k, t + 1)) if z3.is_bool(v) else z3.BitVec('%s_%d' % (k, t + 1), v.size())
                     cons.append(var == e)
                     mat[k] = var
             terminal.append(fire[t] == STUTTER)
@@ -538,7 +544,7 @@ class Product:
         def footprint(sl, o):
             k = o['kind']
             r = w = 0
-            if k in ('try_send', 'send_blocking', 'recv', 'recv_register'):
+            if k in ('try_send', 'send_blocking', 'recv', 'recv_register', 'try_recv'):
                 w |= bit('chan')
                 if k in ('try_send', 'send_blocking') and o['payload'][0] == 'some':
                     w |= bit('log')          # accepted sequence
@@ -627,7 +633,7 @@ class Product:
                         tv = z3.substitute(term, *subs) if subs else term
                         subn = [n for n in self.x.init['atomics'] if n.endswith('submitted')][0]
                         upd['sres_bad'] = z3.UGT(tv, z3.ZeroExt(tv.size() - self.W, cur['at:' + subn]))
-        upd['pc:' + sl] = I(newpc)
+        upd['pc:' + sl] = z3.BitVecVal(newpc, self.PW)
         qn = self.qmax
         eff_cap = cap if self.bounded else I(qn)
         gbegin = z3.BoolVal(True)
@@ -692,6 +698,18 @@ class Product:
                 g = z3.And(z3.Not(room), z3.BoolVal(self.bounded))
             else:
                 g = z3.BoolVal(False)
+        elif k == 'try_recv':
+            if self.rendezvous:
+                g = z3.BoolVal(out == 'empty')      # no sender ever blocks, so there is never anything to take
+            elif out == 'some':
+                g = z3.And(z3.UGT(cur['clen'], 0), is_id(cur['q'][0]))
+                upd['cur:' + sl] = cur['q'][0]
+                pop()
+            elif out == 'none':
+                g = z3.And(z3.UGT(cur['clen'], 0), cur['q'][0] == self.NONE_MARK)
+                pop()
+            else:
+                g = cur['clen'] == 0
         elif k == 'recv':
             if out == 'some':
                 g = z3.And(z3.UGT(cur['clen'], 0), is_id(cur['q'][0]))
@@ -864,7 +882,7 @@ class Product:
             if not fired:
                 continue
             about_to_park = z3.Or(*[z3.And(S[t]['active:' + w], z3.Not(S[t]['ended:' + w]), z3.Not(S[t]['wait:' + w]), S[t]['clen'] == 0,
-                                           z3.Or(*[S[t]['pc:' + w] == self.bv(n) for n in recv_nodes])) for w in wslots])
+                                           z3.Or(*[S[t]['pc:' + w] == n for n in recv_nodes])) for w in wslots])
             hits.append(z3.And(z3.Or(*fired), about_to_park))
         return z3.Or(*hits) if hits else z3.BoolVal(False)
 
@@ -904,6 +922,7 @@ def scenario_from_trace(steps, capv, handler):
     out = []
     # constraints on error kinds gathered from environment-dependent branches, per worker iteration
     pending_kind = None
+    pending_ok = None
     conds = []
     accepted_idx = []      # positions (in `out`) of the emits whose metric entered the queue, in queue order
     nrecv = 0
@@ -933,7 +952,21 @@ def scenario_from_trace(steps, capv, handler):
         if st['kind'] == 'wrapped_emit':
             out.append({'do': 'release', 'outcome': 'ok' if st['out'] == 'ok' else ('panic' if st['out'] == 'panic' else 'err:Other')})
             pending_kind = (len(out) - 1, st.get('kind_term')) if st['out'] == 'err' else None
+            pending_ok = len(out) - 1 if st['out'] == 'ok' else None
             conds = []
+        if st['kind'] == 'branch' and pending_ok is not None and st.get('cond') is not None and 'wrapped_ret' in st['cond'].sexpr():
+            # the code looks at the count the wrapped sink returned: realise a value that takes this branch
+            from .smt import _consts
+            sv = z3.Solver()
+            sv.add(st['cond'])
+            rv = [c for c in _consts(st['cond']) if c.decl().name().startswith('wrapped_ret')]
+            if rv and sv.check() == z3.sat:
+                val = sv.model().eval(rv[0], model_completion=True).as_long()
+                s2 = z3.Solver()
+                s2.add(st['cond'], z3.ULT(rv[0], 64))
+                if s2.check() == z3.sat:
+                    val = s2.model().eval(rv[0], model_completion=True).as_long()
+                out[pending_ok]['outcome'] = 'ok:%d' % val
         if st['kind'] == 'branch' and pending_kind is not None and st.get('cond') is not None and pending_kind[1] is not None:
             conds.append(st['cond'])
             s = z3.Solver()
